@@ -1057,6 +1057,13 @@ def _val_to_numpy(
     else:
         val_list = [np.asarray(val)]
 
+    if len({v.dtype for v in val_list}) > 1 and all(
+        v.dtype.kind in "iufb" for v in val_list
+    ):
+        # e.g. an integer chunk with a null comes back as float64: one dtype for all
+        common_dtype = np.result_type(*val_list)
+        val_list = [v.astype(common_dtype) for v in val_list]
+
     if as_list:
         if any(v.dtype.kind in "OUST" for v in val_list):
             # numba cannot type a list of object/string arrays
